@@ -68,6 +68,43 @@ Lemma t_C10_validated_first_packet : forall scid dcid ipn lens single udpMin pla
   decodePN l (-1) (truncatePN l (initialPN ipn)) = initialPN ipn.
 Proof. exact validated_first_decodable. Qed.
 
+Lemma t_C10_flight_fuel_sufficient : forall c helloLen plens, ~ In (DGErr 98) (flight c helloLen plens).
+Proof. exact flight_fuel_sufficient. Qed.
+
+Lemma t_C10_long_flight_example :
+  length (flight (wcfg BPass [] 1 [(100, 1200)] 0) 1700 []) = 17%nat /\
+  nth_error (flight (wcfg BPass [] 1 [(100, 1200)] 0) 1700 []) 16 = Some (DG 17 1 19 [(1600, 100)] 1182 1200 1200 17 false).
+Proof. split; vm_compute; reflexivity. Qed.
+
+Lemma t_C10_spec_validation_room : forall scid dcid ipn lens single udpMin plans maxPacket tokLen,
+  validateSpecT scid dcid ipn lens single udpMin plans maxPacket tokLen = true ->
+  validateSpec scid dcid ipn lens single udpMin plans maxPacket = true /\
+  let mh := maxHdrLen scid dcid lens single tokLen in
+  mh + 20 <= maxPacket /\
+  Forall (fun p => mh + 20 <= planLimit maxPacket p /\
+                   (0 < fst p -> mh + 1 + 4 + vlen (fst p) + fst p < planLimit maxPacket p - 16)) plans.
+Proof. exact validateSpecT_spec. Qed.
+
+Lemma t_C10_validation_room_regression :
+  validateSpec 0 8 1 [] 1 0 [] 1280 = true /\ validateSpecT 0 8 1 [] 1 0 [] 1280 1300 = false /\
+  validateSpecT 0 8 1 [] 1 0 [] 1280 1240 = true /\
+  validateSpec 0 8 1 [] 1 0 [(1300, 0)] 1280 = true /\ validateSpecT 0 8 1 [] 1 0 [(1300, 0)] 1280 0 = false /\
+  validateSpecT 0 8 1 [] 1 0 [(1160, 1200)] 1280 0 = false /\
+  validateSpecT 0 8 1 [1; 2] 0 0 [(999, 1200); (0, 1200)] 1280 70 = true /\
+  validateSpecT 3 8 0 [] 1 1357 [] 1280 0 = true.
+Proof. exact validate_room_regression. Qed.
+
+Lemma t_C10_builtin_specs_accepted :
+  validateSpecT 0 8 1 [] 1 0 [] 1280 0 = true /\          (* Chrome_115 IPv4 / IPv6 *)
+  validateSpecT 0 8 1 [1; 2] 0 0 [] 1280 0 = true /\      (* Chrome_146 IPv4 / IPv6 *)
+  validateSpecT 3 8 0 [] 1 1357 [] 1280 0 = true /\       (* Firefox_116A *)
+  validateSpecT 3 9 0 [] 1 1357 [] 1280 0 = true /\       (* Firefox_116B *)
+  validateSpecT 3 15 0 [] 1 1357 [] 1280 0 = true.        (* Firefox_116C *)
+Proof. vm_compute. repeat split; reflexivity. Qed.
+
+Lemma t_C10_random_fits_chrome115 : random_fits (wcfg (BRandom [(1215, 3, 9, 9)]) [] 1 [] 0) [(1215, 3, 9, 9)].
+Proof. exact random_fits_chrome115. Qed.
+
 Lemma t_C10_validation_regression :
   validateSpec 0 8 two62 [1; 2; 3] 0 0 [] 1280 = false /\
   validateSpec 0 8 (two64 - 1) [1; 2; 3] 0 0 [] 1280 = false /\
@@ -127,7 +164,7 @@ Lemma t_C10_wire_token_example :
   resolveToken None 1 [7; 8; 9] [] None = Some [7; 8; 9] /\ resolveToken None 5 [7; 8; 9] [1; 2; 3] None = Some [7; 8; 9; 1; 2].
 Proof. split; reflexivity. Qed.
 
-Lemma t_C10_cid_lengths : forall specScid specDcid drawn,
+Lemma t_C10_cid_lengths_by_construction : forall specScid specDcid drawn,
   dialScidLen specScid = specScid /\ (specDcid > 0 -> dialDcidLen specDcid drawn = specDcid) /\
   (specDcid <= 0 -> dialDcidLen specDcid drawn = drawn).
 Proof. exact dial_cid_lengths. Qed.
@@ -341,7 +378,7 @@ Lemma t_C10_server_reads_back :
       zlen dcid <= 20 -> zlen scid <= 20 ->
       1 <= pnLen <= 4 -> pn < 2 ^ 62 -> 0 <= c_first c ->
       zlen payload = pk - h - 16 -> payload <> [] -> 4 <= pnLen + zlen payload ->
-      (largest = pn - 1 \/ (largest = -1 /\ pn <= 2 ^ (pnLen * 8) / 2)) ->
+      (largest = pn - 1 \/ (largest = -1 /\ pn < 2 ^ (pnLen * 8))) ->
       let hb := initialHeaderBytes ver dcid scid token lf pn pnLen in
       let pkt := protect aead_seal hp_mask true (snd hb) payload pn 0 (Z.to_nat pnLen) in
       fst hb = 0 /\ zlen (snd hb) = h /\
@@ -361,7 +398,7 @@ Lemma t_C10_server_reads_back_initial_keys :
     zlen dcid <= 20 -> zlen scid <= 20 ->
     1 <= pnLen <= 4 -> pn < 2 ^ 62 -> 0 <= c_first c ->
     zlen payload = pk - h - 16 -> payload <> [] -> 4 <= pnLen + zlen payload ->
-    (largest = pn - 1 \/ (largest = -1 /\ pn <= 2 ^ (pnLen * 8) / 2)) ->
+    (largest = pn - 1 \/ (largest = -1 /\ pn < 2 ^ (pnLen * 8))) ->
     let v2 := ver =? H_Version2 in
     let hb := initialHeaderBytes ver dcid scid token lf pn pnLen in
     let pkt := initial_protect v2 true keyDcid (snd hb) payload pn (Z.to_nat pnLen) in
@@ -398,7 +435,7 @@ Lemma t_C10_server_reads_back_nonvacuous :
   (forall pn kp ad p, length (toy_seal pn kp ad p) = (length p + 16)%nat) /\
   nth_error (flight (wcfg BPass [] 1 [(999, 1200); (0, 1250)] 0) 1700 []) 0 = Some (DG 1 1 19 [(0, 999)] 1182 1200 1200 1 false) /\
   zlen (repeat 7 8) = 8 /\ zlen (repeat 1 1165) = 1200 - 19 - 16 /\ repeat 1 1165 <> [] /\ 4 <= 1 + zlen (repeat 1 1165) /\
-  1 <= 2 ^ (1 * 8) / 2.
+  1 < 2 ^ (1 * 8).
 Proof.
   split; [exact toy_open_seal|]. split; [exact toy_seal_length|].
   split; [rewrite plan_index_regression; reflexivity|].
